@@ -7,6 +7,9 @@ harness/C14_runner.cpp (tlx code, flavour R: -O1 -DNDEBUG ASan+UBSan) on the C++
     C14_check.py sweep    deterministic sweep: every length 0..1100 x 4 digests x 3 chunkings (+ SipHash lengths x offsets)
                           + the scale classes: generated messages of 8 KiB .. 16 MiB (thorough: .. 256 MiB) around the
                           points where the encoded bit length gains a byte, and SipHash messages up to 64 KiB
+    C14_check.py huge     the huge-single-call class: messages of 2^29 bytes (2^32 bits) and more fed in ONE call, as
+                          1 + rest and in a few large pieces (thorough: 2^29-1, 2^29, 2^29+1, 2^30+64, 2^32-1); ONE process
+                          and one message buffer at a time, serialised across concurrent checks by work/c14-huge.lock
     C14_check.py hyp      Hypothesis search (digest and SipHash properties), sharded over worker processes
     C14_check.py replay   re-execute the self-contained JSON case in $REPLAY_FILE (no Hypothesis involved)
 
@@ -50,6 +53,14 @@ class Machinery(Exception):
     """harness/tooling problem: never a violation"""
 
 
+
+def huge_lock_path():
+    """lock file of the huge step, under /verif/work (created on demand)"""
+    d = os.path.join(os.path.dirname(os.path.dirname(os.path.abspath(__file__))), "work")
+    os.makedirs(d, exist_ok=True)
+    return os.path.join(d, "c14-huge.lock")
+
+
 def build_runner(work):
     """compile harness/C14_runner.cpp + the tlx digest sources of $VERIF_REPO (takes ~2 s; one build per work dir,
     run.py wipes the work dir at the start of every check)"""
@@ -66,7 +77,7 @@ def build_runner(work):
         out, _ = p.communicate(timeout=900)
         if p.returncode != 0:
             raise Machinery("BUILD-ERROR %s\n%s" % (src, out[-4000:]))
-    r = subprocess.run(["clang++"] + CXXFLAGS + [o for _, o in jobs] + ["-o", exe + ".tmp"], capture_output=True,
+    r = subprocess.run(["clang++"] + CXXFLAGS + [o for _, o in jobs] + ["-pthread", "-o", exe + ".tmp"], capture_output=True,
                        text=True, timeout=900)
     if r.returncode != 0:
         raise Machinery("LINK-ERROR\n" + r.stderr[-4000:])
@@ -158,10 +169,14 @@ ALGOS = ["md5", "sha1", "sha256", "sha512"]
 BLOCK = {"md5": 64, "sha1": 64, "sha256": 64, "sha512": 128}
 LENFIELD = {"md5": 8, "sha1": 8, "sha256": 8, "sha512": 16}
 FORMS = ["digest", "digest_hex", "digest_hex_uc", "finalize", "helper_hex_ptr", "helper_hex_str", "helper_hex_uc_ptr",
-         "helper_hex_uc_str"]
-CTORS = ["default", "ptr", "sv"]
-STYLES = ["ptr", "sv", "string"]
-SIP_VARIANTS = ["plain", "sse2", "dispatch", "default_key_u8", "default_key_char", "default_key_sv", "all3", "default_key_string"]
+         "helper_hex_uc_str", "helper_hex_sv", "helper_hex_uc_sv"]
+NFORMS = len(FORMS)
+CTORS = ["default", "ptr", "sv", "string"]
+STYLES = ["ptr", "sv", "string", "std_sv"]
+SIP_VARIANTS = ["plain", "sse2", "dispatch", "default_key_u8", "default_key_char", "default_key_sv", "all3", "default_key_string",
+                "template_pod"]
+# sizeof of the objects hashed through `template <typename Type> siphash(const Type&)` (C14_runner.cpp variant 8)
+POD_SIZES = [1, 2, 3, 4, 5, 7, 8, 9, 12, 15, 16, 17, 24, 31, 32, 33, 64]
 DEFAULT_KEY = bytes(range(16))
 
 M64 = (1 << 64) - 1
@@ -247,6 +262,10 @@ def validate_generator(exe):
             for n in (0, 1, 2, 3, 4, 5, 7, 8, 9, 63, 1000, 4099, 70001):
                 if r.call(b"P" + struct.pack("<QI", seed, n)) != random.Random(seed).randbytes(n):
                     raise Machinery("runner gen_bytes(%d, %d) differs from random.Random(seed).randbytes(n)" % (seed, n))
+        for seed, n, mem in ((3, 0, 0), (3, 1, 0), (5, TILE - 1, 0), (5, TILE, 0), (2 ** 40 + 1, 3 * TILE + 77, 0), (0, 70001, 1)):
+            want = b"".join(huge_blocks(seed, n, mem))
+            if r.call(b"T" + struct.pack("<QQB", seed, n, mem)) != want:
+                raise Machinery("runner huge message (seed=%d, len=%d, mem=%d) differs from the Python one" % (seed, n, mem))
     finally:
         r.close()
 
@@ -278,7 +297,67 @@ _digest_cache = {}
 _sip_cache = {}
 
 
+# ---- huge messages (2^29 bytes and more): never materialised on the Python side -------------------------------------------
+TILE = 1048573  # prime period of the tiled message (see C14_runner.cpp 'H')
+
+
+def huge_blocks(seed, n, mem):
+    """the huge message as a sequence of blocks: mem 0 = gen_bytes(seed, TILE) repeated with period TILE and cut at n,
+    mem 1 = n zero bytes"""
+    if mem == 1:
+        blk = bytes(1 << 26)
+    else:
+        blk = random.Random(seed).randbytes(TILE) * 64
+    left = n
+    while left > 0:
+        k = min(left, len(blk))
+        yield blk if k == len(blk) else blk[:k]
+        left -= k
+
+
+def _huge_compute(algos, seed, n, mem):
+    hs = [hashlib.new(a) for a in algos]
+    for blk in huge_blocks(seed, n, mem):
+        for h in hs:
+            h.update(blk)  # hashlib releases the GIL: this overlaps with the runner working on the same message
+    if len(_huge_cache) >= 16:
+        _huge_cache.clear()
+    for a, h in zip(algos, hs):
+        _huge_cache[(a, seed, n, mem)] = h
+
+
+def huge_prefetch(case):
+    """start hashing the reference digest(s) of a huge case in a thread, while the runner hashes the same message"""
+    if case["kind"] != "digest" or "huge" not in case:
+        return
+    hh = case["huge"]
+    want = [case["algo"]] + [a for a in case.get("prefetch", ()) if a != case["algo"]]
+    algos = [a for a in want if (a, hh["seed"], hh["len"], hh["mem"]) not in _huge_cache]
+    if not algos or _huge_thread:
+        return
+    import threading
+    t = threading.Thread(target=_huge_compute, args=(algos, hh["seed"], hh["len"], hh["mem"]))
+    t.start()
+    _huge_thread.append(t)
+
+
+def huge_digest(algo, seed, n, mem, prefetch=()):
+    """hashlib object over the huge message; `prefetch` = more algorithms to compute in the same pass"""
+    while _huge_thread:
+        _huge_thread.pop().join()
+    key = (algo, seed, n, mem)
+    if key not in _huge_cache:
+        _huge_compute([algo] + [a for a in prefetch if a != algo and (a, seed, n, mem) not in _huge_cache], seed, n, mem)
+    return _huge_cache[key]
+
+
+_huge_thread = []
+_huge_cache = {}
+
+
 def msg_len(case):
+    if "huge" in case:
+        return case["huge"]["len"]
     return case["gen"]["len"] if "gen" in case else len(case["msg"]) // 2
 
 
@@ -286,33 +365,49 @@ def msg_bytes(case):
     return gen_bytes(case["gen"]["seed"], case["gen"]["len"]) if "gen" in case else bytes.fromhex(case["msg"])
 
 
-def digest_case(algo, form, ctor, chunks, msg, gen=None):
-    """gen = (seed, length): the message is gen_bytes(seed, length) and `msg` is ignored"""
+def digest_case(algo, form, ctor, chunks, msg, gen=None, huge=None):
+    """gen = (seed, length): the message is gen_bytes(seed, length) and `msg` is ignored;
+    huge = (seed, length, mem): the message is the tiled / all-zero huge message, chunks are fed without copying"""
     if form >= 4:
         chunks, ctor = [], 0
     c = {"kind": "digest", "algo": ALGOS[algo], "form": FORMS[form], "ctor": CTORS[ctor],
          "chunks": [[n, STYLES[s]] for n, s in chunks]}
-    if gen is None:
+    if huge is not None:
+        c["huge"] = {"seed": huge[0], "len": huge[1], "mem": huge[2]}
+    elif gen is None:
         c["msg"] = msg.hex()
     else:
         c["gen"] = {"seed": gen[0], "len": gen[1]}
     return c
 
 
+def sip_huge_case(seed, n, mem, key):
+    return {"kind": "siphash_huge", "huge": {"seed": seed, "len": n, "mem": mem}, "key": key.hex()}
+
+
 def sip_case(variant, msg_off, key_off, key, msg):
-    if 3 <= variant <= 5 or variant == 7:
+    if 3 <= variant <= 5 or variant >= 7:
         key, key_off = DEFAULT_KEY, 0
+    if variant == 8:  # the message is the object representation: cut to a supported sizeof
+        n = max(x for x in POD_SIZES if x <= max(len(msg), 1))
+        msg, msg_off = (msg + b"\0")[:n], 0
     return {"kind": "siphash", "variant": SIP_VARIANTS[variant], "msg_off": msg_off, "key_off": key_off,
             "key": key.hex(), "msg": msg.hex()}
 
 
 def encode(case):
+    if case["kind"] == "siphash_huge":
+        h = case["huge"]
+        return b"U" + struct.pack("<QQB", h["seed"], h["len"], h["mem"]) + bytes.fromhex(case["key"])
     if case["kind"] == "digest":
-        out = bytearray(b"G" if "gen" in case else b"D")
+        out = bytearray(b"H" if "huge" in case else b"G" if "gen" in case else b"D")
         out += bytes([ALGOS.index(case["algo"]), FORMS.index(case["form"]), CTORS.index(case["ctor"])])
         out += struct.pack("<I", len(case["chunks"]))
         for n, s in case["chunks"]:
             out += struct.pack("<IB", n, STYLES.index(s))
+        if "huge" in case:
+            h = case["huge"]
+            return bytes(out) + struct.pack("<QQB", h["seed"], h["len"], h["mem"])
         if "gen" in case:
             return bytes(out) + struct.pack("<QI", case["gen"]["seed"], case["gen"]["len"])
         return bytes(out) + bytes.fromhex(case["msg"])
@@ -324,8 +419,13 @@ def encode(case):
 
 
 def expected(case):
+    if case["kind"] == "siphash_huge":
+        return None  # no reference value at this size: the three implementations are compared with each other
     if case["kind"] == "digest":
-        if "gen" in case:  # long message hashed in several forms / chunkings: one hashlib pass per (algorithm, message)
+        if "huge" in case:
+            hh = case["huge"]
+            h = huge_digest(case["algo"], hh["seed"], hh["len"], hh["mem"], case.get("prefetch", ()))
+        elif "gen" in case:  # long message hashed in several forms / chunkings: one hashlib pass per (algorithm, message)
             key = (case["algo"], case["gen"]["seed"], case["gen"]["len"])
             h = _digest_cache.get(key)
             if h is None:
@@ -337,7 +437,7 @@ def expected(case):
         f = case["form"]
         if f in ("digest", "finalize"):
             return h.digest()
-        if f in ("digest_hex", "helper_hex_ptr", "helper_hex_str"):
+        if f in ("digest_hex", "helper_hex_ptr", "helper_hex_str", "helper_hex_sv"):
             return h.hexdigest().encode()
         return h.hexdigest().upper().encode()
     if len(case["msg"]) >= 2048:  # long message evaluated at several alignments / variants: one reference pass
@@ -354,6 +454,8 @@ def expected(case):
 
 
 def show(b, case):
+    if b is None:
+        return "(plain == sse2 == dispatch)"
     if case["kind"] == "digest" and case["form"] not in ("digest", "finalize"):
         return repr(b.decode("latin-1"))
     if case["kind"] == "siphash":
@@ -363,13 +465,19 @@ def show(b, case):
 
 def describe(case):
     n = msg_len(case)
-    if "gen" in case:
+    if "huge" in case:
+        hh = case["huge"]
+        m = ("%d zero bytes" % n) if hh["mem"] == 1 else \
+            "random.Random(%d).randbytes(%d) repeated with that period, cut at %d bytes" % (hh["seed"], TILE, n)
+        if case["kind"] == "siphash_huge":
+            return "siphash plain/sse2/dispatch len=%d key=%s msg=%s" % (n, case["key"], m)
+    elif "gen" in case:
         m = "gen_bytes(seed=%d, len=%d) = random.Random(seed).randbytes(len)" % (case["gen"]["seed"], n)
     else:
         m = case["msg"] if n <= 48 else case["msg"][:64] + "...(%d bytes)" % n
     if case["kind"] == "digest":
         ch = case["chunks"]
-        chs = " ".join("%d%s" % (k, {"ptr": "", "sv": "v", "string": "s"}[s]) for k, s in ch[:24]) + \
+        chs = " ".join("%d%s" % (k, {"ptr": "", "sv": "v", "string": "s", "std_sv": "w"}[s]) for k, s in ch[:24]) + \
             (" ...(%d chunks)" % len(ch) if len(ch) > 24 else "")
         return "%s %s ctor=%s len=%d chunks=[%s] msg=%s" % (case["algo"], case["form"], case["ctor"], n, chs, m)
     msg = bytes.fromhex(case["msg"])
@@ -389,13 +497,23 @@ def crash_label(e):
     return "crash/exit:%s" % e.rc
 
 
-def check_case(runner, case, has_sse2=True):
-    """returns None (property holds on this case) or (label, message)"""
+def check_case(runner, case, has_sse2=True, got=None):
+    """returns None (property holds on this case) or (label, message); got = response already obtained (batch)"""
     try:
-        got = runner.call(encode(case))
+        if got is None:
+            got = runner.call(encode(case))
     except RunnerDied as e:
         return crash_label(e), "runner died (rc=%s) on this case:\n%s" % (e.rc, e.text[-3000:])
     want = expected(case)
+    if case["kind"] == "siphash_huge":
+        if len(got) != 24:
+            raise Machinery("bad huge siphash response")
+        pl, ss, di = got[0:8], got[8:16], got[16:24]
+        if pl != ss:
+            return "C14/siphash-plain-vs-sse2", "plain %s != sse2 %s" % (pl[::-1].hex(), ss[::-1].hex())
+        if di != pl:
+            return "C14/siphash-dispatch", "dispatch %s != plain %s" % (di[::-1].hex(), pl[::-1].hex())
+        return None
     if case["kind"] == "digest":
         if got != want:
             return "C14/%s-%s" % (case["algo"], case["form"]), "got %s, standard says %s" % (show(got, case),
@@ -416,16 +534,33 @@ def check_case(runner, case, has_sse2=True):
         if d != ref:
             return "C14/siphash-dispatch", "got %s, SipHash-2-4 is %s" % (d[::-1].hex(), ref[::-1].hex())
         return None
+    if case["variant"] == "template_pod":
+        if len(got) not in (16, 24):
+            raise Machinery("bad template_pod response")
+        for i in range(0, len(got), 8):
+            if got[i:i + 8] != want:
+                return "C14/siphash-template-pod", "object type #%d of %d bytes: got %s, SipHash-2-4 of its bytes is %s" % (
+                    i // 8, len(case["msg"]) // 2, got[i:i + 8][::-1].hex(), want[::-1].hex())
+        return None
     if got != want:
         return "C14/siphash-" + case["variant"].replace("_", "-"), "got %s, SipHash-2-4 is %s" % (got[::-1].hex(),
                                                                                                  want[::-1].hex())
     return None
 
 
+def huge_size_label(n):
+    for k in (29, 30, 32):
+        if abs(n - (1 << k)) <= 256:
+            return "n=2^%d%s" % (k, "" if n == 1 << k else "%+d" % (n - (1 << k)))
+    return "n=%d" % n
+
+
 def classify(case):
     """(labels, nontrivial) by the DESIGN §4 C14 rule"""
     labels = []
     n = msg_len(case)
+    if case["kind"] == "siphash_huge":
+        return ["huge/siphash-3-implementations", "huge/siphash/" + huge_size_label(n)], True
     if case["kind"] == "digest":
         a = case["algo"]
         B = BLOCK[a]
@@ -448,6 +583,24 @@ def classify(case):
             labels.append("scale/bitlen>=2^31(256MiB)")
         if "gen" in case:
             labels.append("scale/generated-message")
+        if "huge" in case:
+            chl = [c[0] for c in case["chunks"]]
+            labels += ["huge/" + a, "huge/" + huge_size_label(n), "huge/" + a + "/" + huge_size_label(n)]
+            whole = lambda i: (chl[i] - (B - sum(chl[:i]) % B) % B) // B * B if chl[i] >= B else 0  # noqa: E731
+            if not chl:
+                labels.append("huge/one-call/helper")
+            elif len(chl) == 1:
+                labels.append("huge/one-call/" + ("process" if case["ctor"] == "default" else "ctor"))
+            elif len(chl) == 2 and chl[0] < 256:
+                labels.append("huge/small+rest")
+            elif len(chl) == 2 and chl[1] < 256:
+                labels.append("huge/rest+small")
+            else:
+                labels.append("huge/few-large-chunks")
+            if (not chl and n >= 1 << 29) or any(whole(i) >= 1 << 29 for i in range(len(chl))):
+                labels.append("huge/one-call-carries>=2^29-whole-block-bytes")
+            if case["huge"]["mem"] == 1:
+                labels.append("huge/zero-page-message")
         if n >= 1 << 21 and case["chunks"]:
             chl = [c[0] for c in case["chunks"]]
             if len(chl) == 1:
@@ -469,7 +622,7 @@ def classify(case):
         ch = case["chunks"]
         if not ch:
             labels.append("chunks/helper-one-shot")
-            return labels, False
+            return labels, "huge" in case
         labels.append("ctor/" + case["ctor"])
         nonempty = sum(1 for c in ch if c[0])
         labels.append("chunks/1" if len(ch) == 1 else "chunks/2-3" if len(ch) <= 3 else "chunks/4+")
@@ -489,7 +642,7 @@ def classify(case):
                 seen.add("path/buffer-append")
             cur = (cur + ln) % B
         labels += sorted(seen)
-        nt = nonempty >= 2 and (rem >= B - 9 or rem <= 1)
+        nt = (nonempty >= 2 and (rem >= B - 9 or rem <= 1)) or "huge" in case
         return labels, nt
     labels.append("sip/" + case["variant"])
     labels.append("sip/tail%d" % (n % 8))
@@ -551,13 +704,13 @@ STRING_OVERLOAD = os.environ.get("C14_STRING_OVERLOAD", "") not in ("", "0")
 SHRINK_BUDGET_S = float(os.environ.get("C14_SHRINK_BUDGET_S", "60"))
 
 
-def evaluate(runner, st, case, has_sse2):
+def evaluate(runner, st, case, has_sse2, got=None):
     """run one case against the oracle; raises CaseFailure (single raise site = single Hypothesis 'origin')"""
     payload = encode(case)
     if st.shrink_deadline is not None and time.time() > st.shrink_deadline and payload not in st.failed_keys:
         return  # shrinking budget used up: only already-known failing cases are re-executed
     st.account(case, payload)
-    r = check_case(runner, case, has_sse2)
+    r = check_case(runner, case, has_sse2, got)
     if r is None:
         return
     label, msg = r
@@ -586,7 +739,7 @@ def sweep_chunkings(L, B):
     out, left, i = [], L, 0
     while left > 0:
         n = min(pat[i % len(pat)], left)
-        out.append((n, (i + L) % 3))
+        out.append((n, (i + L) % 4))
         left -= n
         i += 1
     if not out or L % 2:
@@ -605,9 +758,9 @@ def sweep_shard(args):
             for a, algo in enumerate(ALGOS):
                 for ci, chunks in enumerate(sweep_chunkings(L, BLOCK[algo])):
                     if ci == 0:
-                        cases = [digest_case(a, f, (L + f) % 3, chunks, msg) for f in range(8)]
+                        cases = [digest_case(a, f, (L + f) % 4, [(L, (L + f) % 4)], msg) for f in range(NFORMS)]
                     else:
-                        cases = [digest_case(a, (L + ci + a) % 4, (L + ci) % 3, chunks, msg)]
+                        cases = [digest_case(a, (L + ci + a) % 4, (L + ci) % 4, chunks, msg)]
                     for c in cases:
                         evaluate(runner, st, c, has_sse2)
                         st.labels["sweep/digest"] = st.labels.get("sweep/digest", 0) + 1
@@ -619,6 +772,11 @@ def sweep_shard(args):
                           sip_case(3 + (L + off) % 3, off, 0, DEFAULT_KEY, msg)):
                     evaluate(runner, st, c, has_sse2)
                     st.labels["sweep/siphash"] = st.labels.get("sweep/siphash", 0) + 1
+            if L in POD_SIZES:
+                for k in range(8):  # template siphash(const Type&): 8 object contents per sizeof
+                    evaluate(runner, st, sip_case(8, 0, 0, DEFAULT_KEY, msg if k == 0 else random.Random(
+                        "c14-sippod/%d/%d/%d" % (seed, L, k)).randbytes(L)), has_sse2)
+                    st.labels["sweep/siphash-template"] = st.labels.get("sweep/siphash-template", 0) + 1
     except CaseFailure:
         pass
     finally:
@@ -705,6 +863,171 @@ def sweep_long_job(args):
     return r
 
 
+# ---- huge-single-call class (its own step `huge`, ONE process, ONE message buffer at a time) ---------------------------
+# 2^29 bytes = 2^32 bits is the overflow boundary of every 32-bit step in a digest's length accounting, and one
+# process() / constructor / helper call may carry up to 2^32 - 1 bytes. The step runs in a single runner process that
+# holds ONE message (exact-size malloc block, tiled pattern; RSS about 1.13 n, at most ~1.2 GB for 2^30+64; the 2^32-1
+# message is an untouched anonymous mapping without resident memory), cases are executed one after the other, and a
+# machine-wide lock (work/c14-huge.lock) makes concurrent C14 checks take turns, so that there is never more than one
+# such buffer on the machine. The Python side never materialises the message (reference hashed block by block in a
+# thread while the runner works on the same case).
+#   quick   : (a) n = 2^29 in ONE call for SHA-256, SHA-512 and the rotating digest (MD5 for odd VERIF_SEED, SHA-1 for even);
+#             result form / constructor / argument style rotate with seed + algorithm; when (seed // 2) is odd the
+#             rotating digest runs (b) n = 2^29+129+seed%3 as 1 byte + rest instead; plain / SSE2 / dispatching SipHash
+#             compared with each other on the 2^29-byte message.  About 3 passes over 512 MiB + 3 SipHash passes.
+#   thorough: n in 2^29-1, 2^29, 2^29+1, 2^30+64, all four digests: one call through an object, small + rest,
+#             rest + small, four quarters; one call through a helper and three uneven pieces for two digests per size
+#             (rotating); SipHash agreement; then 2^32 - 1 zero bytes: one call and 1 + rest for every digest, helper
+#             and two halves for the rotating one, SipHash agreement on 2^32 + 9 zero bytes
+HUGE_THOROUGH = [(1 << 29) - 1, 1 << 29, (1 << 29) + 1, (1 << 30) + 64]
+HUGE_MAX = (1 << 32) - 1
+HUGE_THREADS = 4
+
+
+def huge_cases(seed, tier):
+    n = 1 << 29
+    hs = (seed * 7919 + n) & M64
+    key = random.Random("c14-hugekey/%d" % seed).randbytes(16)
+    rot = 0 if seed % 2 else 1
+    if tier != "thorough":
+        for a in (2, 3):
+            k = seed + a
+            yield digest_case(a, k % 8, k % 3, [(n, k % 2)], b"", huge=(hs, n, 0))
+        k = seed + rot
+        if (seed // 2) % 2 == 0:
+            yield digest_case(rot, k % 8, k % 3, [(n, k % 2)], b"", huge=(hs, n, 0))
+        yield sip_huge_case(hs, n, 0, key)  # same message as the cases above: no refill
+        if (seed // 2) % 2 == 1:
+            n2 = n + 129 + seed % 3
+            yield digest_case(rot, (k + 1) % 4, (k + 1) % 3, [(1, k % 2), (n2 - 1, (k + 1) % 2)], b"", huge=(hs, n2, 0))
+        return
+    allp = ALGOS[:]
+    for n in HUGE_THOROUGH:
+        hs = (seed * 7919 + n) & M64
+        first = True
+        for a in range(4):
+            k = seed + a + n
+            small = [1, 7, 63, 65][k % 4]
+            q = n // 4
+            c = digest_case(a, k % 4, k % 3, [(n, k % 2)], b"", huge=(hs, n, 0))            # (a) one call, object
+            if first:
+                c["prefetch"], first = allp, False  # one Python pass over the message for all four digests
+            yield c
+            yield digest_case(a, (k + 1) % 4, (k + 1) % 3, [(small, k % 2), (n - small, (k + 1) % 2)], b"", huge=(hs, n, 0))
+            yield digest_case(a, (k + 2) % 4, (k + 2) % 3, [(n - small, k % 2), (small, (k + 1) % 2)], b"", huge=(hs, n, 0))
+            yield digest_case(a, (k + 3) % 4, k % 3, [(q + 1, 0), (q - 1, 1), (q, 0), (n - 3 * q, 1)], b"", huge=(hs, n, 0))
+            if (a + seed + n) % 2 == 0:
+                yield digest_case(a, 4 + k % 4, 0, [], b"", huge=(hs, n, 0))                  # (a) one call, helper
+                yield digest_case(a, k % 4, (k + 1) % 3, [((1 << 28) + 3, 1), (n - (1 << 28) - 3 - 129, 0), (129, 1)], b"",
+                                  huge=(hs, n, 0))
+        yield sip_huge_case(hs, n, 0, key)
+    n = HUGE_MAX  # zero bytes, no resident memory
+    first = True
+    for a in range(4):
+        k = seed + a
+        c = digest_case(a, k % 4, k % 3, [(n, k % 2)], b"", huge=(0, n, 1))
+        if first:
+            c["prefetch"], first = allp, False
+        yield c
+        yield digest_case(a, (k + 1) % 4, (k + 1) % 3, [(1, 0), (n - 1, 1)], b"", huge=(0, n, 1))
+        if a == seed % 4:
+            yield digest_case(a, 4 + k % 4, 0, [], b"", huge=(0, n, 1))
+            yield digest_case(a, (k + 2) % 4, (k + 2) % 3, [(n // 2, 1), (n - n // 2, 0)], b"", huge=(0, n, 1))
+    yield sip_huge_case(0, (1 << 32) + 9, 1, key)
+
+
+def run_huge():
+    """the `huge` step: one process, one runner, one message buffer at a time, machine-wide lock"""
+    import fcntl
+    seed = int(os.environ.get("VERIF_SEED", "1") or "1")
+    tier = os.environ.get("VERIF_TIER", "quick")
+    work = os.environ.get("VERIF_WORK") or tempfile.mkdtemp(prefix="c14-")
+    out_path = os.environ.get("STEP_OUT") or os.path.join(work, "step-huge.json")
+    validate_oracles()
+    exe = build_runner(work)
+    validate_generator(exe)
+    t_built = time.time()
+    st = Stats()
+    lock = open(huge_lock_path(), "a")
+    fcntl.flock(lock, fcntl.LOCK_EX)  # blocks while another C14 check holds a huge message
+    t_lock = time.time()
+    runner = Runner(exe)
+    try:
+        has_sse2 = runner.call(b"I") == b"\1"
+        # consecutive cases on the same message form one 'M' request: up to HUGE_THREADS threads of the ONE runner process
+        # work on the ONE buffer (wall time of the slowest digest, not the sum); the references are hashed meanwhile
+        batch = []
+
+        def flush():
+            if not batch:
+                return
+            pre = sorted({c["algo"] for c in batch if c["kind"] == "digest"})
+            for c in batch:
+                if c["kind"] == "digest":
+                    c["prefetch"] = pre
+                    huge_prefetch(c)
+                    break
+            pls = [encode(c) for c in batch]
+            try:
+                resp = runner.call(b"M" + struct.pack("<IB", len(pls), HUGE_THREADS) +
+                                   b"".join(struct.pack("<I", len(x)) + x for x in pls))
+            except RunnerDied:
+                resp = None  # find the culprit one by one (each in the restarted runner)
+            pos = 0
+            for c in batch:
+                got = None
+                if resp is not None:
+                    (m,) = struct.unpack_from("<I", resp, pos)
+                    got = resp[pos + 4:pos + 4 + m]
+                    pos += 4 + m
+                evaluate(runner, st, c, has_sse2, got)
+                st.labels["huge/cases"] = st.labels.get("huge/cases", 0) + 1
+            del batch[:]
+
+        for c in huge_cases(seed, tier):
+            if batch and (batch[0]["huge"] != c["huge"] or len(batch) >= 16):
+                flush()
+            batch.append(c)
+        flush()
+    except CaseFailure:
+        pass
+    finally:
+        while _huge_thread:
+            _huge_thread.pop().join()
+        runner.close()  # the runner exits: the buffer is gone
+    failure = None
+    try:
+        if st.failure is not None:
+            case, label, msg = st.failure
+            again = confirm(exe, case)
+            if again is None:
+                st.labels["unreproducible/" + label] = 1
+            else:
+                label, msg = again
+                case = dict(case)
+                case.pop("prefetch", None)
+                case["label"] = label
+                case["expected"] = show(expected(case), case)
+                path = os.path.join(work, "c14-huge-failure.case")
+                with open(path, "w") as fh:
+                    json.dump(case, fh, indent=1)
+                    fh.write("\n")
+                failure = {"label": label, "msg": (describe(case) + "\n" + msg)[:4000], "file": path}
+    finally:
+        fcntl.flock(lock, fcntl.LOCK_UN)
+        lock.close()
+    r = st.result()
+    out = {"evaluations": r["evaluations"], "distinct_nontrivial": count_distinct([r["nt"]]), "samples": r["samples"][:6],
+           "labels": dict(sorted(r["labels"].items())), "wall_s": round(time.time() - T0, 2),
+           "build_s": round(t_built - T0, 2), "lock_wait_s": round(t_lock - t_built, 2), "failure": failure}
+    with open(out_path, "w") as fh:
+        json.dump(out, fh, indent=1)
+        fh.write("\n")
+    sys.stdout.write("C14 huge: evaluations=%d wall=%.1fs (lock wait %.1fs)%s\n" % (
+        out["evaluations"], out["wall_s"], out["lock_wait_s"], " FAILURE " + failure["label"] if failure else ""))
+    return 0
+
+
 def sweep_job(args):
     return sweep_long_job(args[1:]) if args[0] == "long" else sweep_shard(args[1:])
 
@@ -743,8 +1066,8 @@ def hyp_shard(args):
 
     @S.composite
     def digest_inputs(draw):
-        form = draw(S.sampled_from([0, 1, 2, 3, 0, 1, 2, 3, 0, 1, 2, 3, 4, 5, 6, 7]))
-        ctor = draw(S.integers(0, 2))
+        form = draw(S.sampled_from([0, 1, 2, 3, 0, 1, 2, 3, 0, 1, 2, 3, 4, 5, 6, 7, 8, 9]))
+        ctor = draw(S.integers(0, 3))
         # length = 128*q + r so that shrinking q keeps the padding class (r mod 64, r mod 128) of a failing case
         lsel = draw(S.integers(0, 39))
         if lsel < 10:
@@ -792,22 +1115,22 @@ def hyp_shard(args):
                 d = draw(S.sampled_from([0, -1, 1]))
                 cuts.append(min(max(64 * k + d, 0), L))
         cuts.sort()
-        styles = draw(S.integers(0, 3 ** (ncuts + 1) - 1))
+        styles = draw(S.integers(0, 4 ** (ncuts + 1) - 1))
         chunks, prev = [], 0
         for c in cuts + [L]:
-            chunks.append((c - prev, styles % 3))
-            styles //= 3
+            chunks.append((c - prev, styles % 4))
+            styles //= 4
             prev = c
         return form, ctor, chunks, msg, gen
 
     @S.composite
     def sip_inputs(draw):
-        variant = draw(S.sampled_from([6, 0, 1, 2, 6, 3, 4, 5, 6] + ([7] if STRING_OVERLOAD else [])))
+        variant = draw(S.sampled_from([6, 0, 1, 2, 6, 3, 4, 5, 6, 8] + ([7] if STRING_OVERLOAD else [])))
         msg_off = draw(S.integers(0, 15))
         key_off = draw(S.integers(0, 15))
         lsel = draw(S.integers(0, 9))
         L = draw(S.integers(0, 130)) if lsel < 9 else draw(S.integers(131, 700))
-        key = DEFAULT_KEY if 3 <= variant <= 5 or variant == 7 else draw(S.binary(min_size=16, max_size=16))
+        key = DEFAULT_KEY if 3 <= variant <= 5 or variant >= 7 else draw(S.binary(min_size=16, max_size=16))
         # scale classes (rare): a few KiB (about 1 example in 80) and around 16..64 KiB (about 1 in 160); the content
         # is expanded from a drawn seed (Hypothesis byte strings of that size would exceed its buffer)
         sub = draw(S.integers(0, 15)) if lsel == 9 else 0
@@ -963,6 +1286,11 @@ def replay():
         case = json.load(fh)
     validate_oracles()
     work = tempfile.mkdtemp(prefix="c14-replay-")
+    lock = None
+    if "huge" in case:  # one huge message buffer on the machine at a time (see run_huge)
+        import fcntl
+        lock = open(huge_lock_path(), "a")
+        fcntl.flock(lock, fcntl.LOCK_EX)
     try:
         exe = build_runner(work)
         print("case: " + describe(case))
@@ -983,6 +1311,8 @@ def main():
     mode = sys.argv[1] if len(sys.argv) > 1 else ""
     if mode in ("sweep", "hyp"):
         return run_steps(mode)
+    if mode == "huge":
+        return run_huge()
     if mode == "replay":
         return replay()
     sys.stderr.write(__doc__)
